@@ -19,7 +19,7 @@ static long nlv_fuel_val = -2;
 FILE *nlv_trace_file(void) {
     if (!nlv_out_init) {
         nlv_out_init = 1;
-        const char *path = getenv("NANOLANG_VERIF_TRACE");
+        const char *path = getenv("NANOLANG_VERIF_TRACE_VM");
         if (path && path[0]) nlv_out = fopen(path, "a");
     }
     return nlv_out;
